@@ -23,7 +23,9 @@ type typeSpec struct {
 }
 
 // lit: a value written as a string literal cast to the type (DuckDB parses its own text form).
-func lit(class, text string) valSpec { return valSpec{class, "'" + strings.ReplaceAll(text, "'", "''") + "'"} }
+func lit(class, text string) valSpec {
+	return valSpec{class, "'" + strings.ReplaceAll(text, "'", "''") + "'"}
+}
 
 // raw: an SQL expression that is cast to the type.
 func raw(class, expr string) valSpec { return valSpec{class, expr} }
@@ -89,6 +91,33 @@ type grid struct {
 	ns     []int
 	limits []int
 	names  []string
+	// quick only: at the multi-batch sizes (n > 2048) the base grid evaluates the value classes that differ from row to
+	// row (the cycle column, row-dependent expressions) and the types without a cycle column; a column that repeats one
+	// value over several batches is what the result-shape dimension enumerates (placements D..D and A..A), in every tier.
+	bigNOnlyVarying bool
+	// the result-shape dimension (shape.go)
+	shapeNs                   []int // row counts
+	shapeLimits               []int // governance row limits (applied to a shape when limit < n)
+	shapeSpecialMinBatches    int   // mark index 1 (special values) is enumerated for results of at least this many ...
+	shapeSpecialMaxBatches    int   // ... and at most this many batches
+	shapeAllMarksMaxBatches   int   // mark indexes 2.. (all other value classes) likewise (0: never)
+	shapeFullStatesMaxBatches int   // results of at most this many batches: every assignment of {D,S,A}; larger ones: of {D,S}
+}
+
+// shapeStates: the per-batch state alphabet for an n-row result.
+func (g *grid) shapeStates(n int) string {
+	if batchesOf(n) <= g.shapeFullStatesMaxBatches {
+		return "DSA"
+	}
+	return "DS"
+}
+
+// inBase: is the (value class, n) point part of the base grid of this tier?
+func (g *grid) inBase(t *typeSpec, v valSpec, n int) bool {
+	if !g.bigNOnlyVarying || n <= batchRows {
+		return true
+	}
+	return v.class == "cycle" || strings.Contains(v.sql, "i %") || len(t.vals) == 0
 }
 
 func (g *grid) typeByName(n string) *typeSpec {
@@ -142,6 +171,23 @@ func newGrid(quick bool) *grid {
 	if !quick {
 		g.ns = []int{0, 1, 2, 3, 999, 1000, 1001, 2047, 2048, 2049, 4096, 4097, 5000, 10000, 10001}
 		g.limits = []int{0, 1, 2, 1000, 2047, 2048, 2049, 4096}
+	}
+	// result shapes: 1, 2 and 3 Arrow batches (DuckDB's vector = 2048 rows) with the boundary sizes; row limits that
+	// cut inside the first and inside the second batch. quick: NULL as the mark everywhere, the special values for
+	// results of at most two batches; {D,S,A} per batch up to two batches, {D,S} for three. thorough adds two exactly
+	// full batches, a fourth batch, the boundary limits, the special values everywhere, every other value class as a
+	// mark for results of at most two batches, and {D,S,A} for three batches.
+	g.bigNOnlyVarying = quick
+	g.shapeNs = []int{1, 2047, 2048, 2049, 4097}
+	g.shapeLimits = []int{1000, 2100}
+	g.shapeSpecialMinBatches, g.shapeSpecialMaxBatches = 1, 2
+	g.shapeFullStatesMaxBatches = 2
+	if !quick {
+		g.shapeNs = []int{1, 2, 2047, 2048, 2049, 4096, 4097, 6145}
+		g.shapeLimits = []int{1, 1000, 2048, 2049, 3000, 4096, 5000}
+		g.shapeSpecialMinBatches, g.shapeSpecialMaxBatches = 1, 4
+		g.shapeAllMarksMaxBatches = 2
+		g.shapeFullStatesMaxBatches = 3
 	}
 	g.names = []string{"c", `a"b`, `a\b`, "tab\there", "nl\nx", "ü€𝄞", `A`, "sp ace", "ctl\x01\x1f", `'q'`}
 
